@@ -29,7 +29,12 @@ import (
 	"syscall"
 	"time"
 
+	"github.com/hashicorp/memberlist"
 	"github.com/vx-labs/mqtt-protocol/packet"
+	"github.com/vx-labs/wasp/v4/wasp"
+	"github.com/vx-labs/wasp/v4/wasp/ack"
+	"github.com/vx-labs/wasp/v4/wasp/audit"
+	"github.com/vx-labs/wasp/v4/wasp/distributed"
 	"github.com/vx-labs/wasp/v4/wasp/messages"
 )
 
@@ -49,14 +54,26 @@ type round struct {
 }
 type scenario struct {
 	Rounds []round `json:"rounds"`
+	// Sched: the log is consumed through wasp.SchedulePublishes (what cmd/wasp runs) with a writer that records what is
+	// handed to it, instead of a bare Consume call
+	Sched bool `json:"sched"`
 }
+
+// handWriter is a wasp.Writer whose Schedule is the hand-over point; everything else is the embedded real writer's
+// (the interface names an unexported type, so it can only be satisfied by embedding).
+type handWriter struct {
+	wasp.Writer
+	f func(off uint64)
+}
+
+func (h handWriter) Schedule(ctx context.Context, offset uint64) { h.f(offset) }
 
 func emit(v map[string]interface{}) {
 	b, _ := json.Marshal(v)
 	os.Stdout.Write(append(b, '\n'))
 }
 
-func child(dir string, run int, length uint64, nappend int, at *atSpec, kill *killSpec, clean bool) {
+func child(dir string, run int, length uint64, nappend int, at *atSpec, kill *killSpec, clean bool, sched bool) {
 	persisted := uint64(0)
 	if b, err := ioutil.ReadFile(filepath.Join(dir, "publish_distributor.state")); err == nil && len(b) == 8 {
 		persisted = binary.BigEndian.Uint64(b)
@@ -111,8 +128,8 @@ func child(dir string, run int, length uint64, nappend int, at *atSpec, kill *ki
 	if clean && persisted+1 >= next && next > 0 {
 		// nothing new to consume beyond the replay of the stored offset: still run the consumer once
 	}
-	err = log.Consume(ctx, "publish_distributor", func(off uint64, p *packet.Publish) error {
-		ok := bytes.Equal(p.Payload, []byte(strconv.FormatUint(off, 10)))
+	handOver := func(off uint64, p *packet.Publish) error {
+		ok := p != nil && bytes.Equal(p.Payload, []byte(strconv.FormatUint(off, 10)))
 		emit(map[string]interface{}{"op": "handed", "off": off, "intact": ok})
 		if kill != nil && kill.Point == "incb" && kill.Off == off {
 			die("incb", off)
@@ -122,7 +139,20 @@ func child(dir string, run int, length uint64, nappend int, at *atSpec, kill *ki
 			at = nil
 		}
 		return nil
-	})
+	}
+	if sched {
+		st := distributed.NewState(1, &memberlist.TransmitLimitedQueue{RetransmitMult: 1, NumNodes: func() int { return 1 }}, audit.NoneRecorder())
+		w := handWriter{Writer: wasp.NewWriter(1, st.Subscriptions(), wasp.NewState(1), ack.NewQueue()), f: func(off uint64) {
+			p, gerr := log.Get(off)
+			if gerr != nil {
+				p = nil
+			}
+			handOver(off, p)
+		}}
+		wasp.SchedulePublishes(1, w, log)(ctx)
+	} else {
+		err = log.Consume(ctx, "publish_distributor", handOver)
+	}
 	log.Close()
 	emit(map[string]interface{}{"op": "exit", "run": run, "err": fmt.Sprint(err)})
 }
@@ -147,6 +177,9 @@ func runScenario(self string, idx int, s scenario) [][]byte {
 		}
 		if rd.Clean {
 			args = append(args, "-clean")
+		}
+		if s.Sched {
+			args = append(args, "-sched")
 		}
 		cmd := exec.Command(self, args...)
 		var buf bytes.Buffer
@@ -198,6 +231,7 @@ func main() {
 	atS := flag.String("at", "", "")
 	killS := flag.String("kill", "", "")
 	clean := flag.Bool("clean", false, "")
+	schedF := flag.Bool("sched", false, "")
 	scn := flag.String("scenarios", "", "")
 	outp := flag.String("out", "trace.ndjson", "")
 	jobs := flag.Int("jobs", 8, "")
@@ -217,7 +251,7 @@ func main() {
 			kill.Point = (*killS)[:i]
 			kill.Off, _ = strconv.ParseUint((*killS)[i+1:], 10, 64)
 		}
-		child(*dir, *run, *length, *nappend, at, kill, *clean)
+		child(*dir, *run, *length, *nappend, at, kill, *clean, *schedF)
 		return
 	}
 	self, _ := os.Executable()
